@@ -754,6 +754,19 @@ class Interp:
                 self.emit("store", (("sub", N(t.value.id), key), v), st)
                 self.frames[-1][t.value.id] = ("dictd", tuple(ents))
                 return
+            if cur[0] == "c" and isinstance(cur[1], tuple) and key[0] == "c" and isinstance(key[1], int) and not isinstance(key[1], bool) and -len(cur[1]) <= key[1] < len(cur[1]):
+                # an item store into a local sequence whose items are all known
+                vv = simplify(v)
+                self.emit("store", (("sub", N(t.value.id), key), v), st)
+                if vv[0] == "c":
+                    items = list(cur[1])
+                    items[key[1]] = vv[1]
+                    self.frames[-1][t.value.id] = C(tuple(items))
+                else:
+                    items_t = [C(x) for x in cur[1]]
+                    items_t[key[1]] = v
+                    self.frames[-1][t.value.id] = ("list", tuple(items_t))
+                return
         tgt = self._ev(t)
         self.emit("store", (tgt, v), st)
 
